@@ -117,20 +117,20 @@ type PathSample struct {
 }
 
 type ExploreStats struct {
-	Paths        int64            `json:"paths_completed"`
-	Aborts       map[string]int64 `json:"aborts"`
-	AbortSamples map[string]string `json:"abort_samples"`
-	Forks        int64            `json:"branch_decisions"`
-	SolverChecks int64            `json:"solver_checks"`
-	Obligations  int64            `json:"obligations"`
-	Discharged   int64            `json:"discharged"`
-	Inconclusive int64            `json:"inconclusive"`
-	Steps        int64            `json:"ssa_instructions"`
-	Reach        map[string]int64 `json:"reach"`
-	PortfolioWins map[string]int64 `json:"portfolio_wins"`
-	TimedOut     bool             `json:"timed_out"`
-	KnownHits    map[string]int64 `json:"known_findings_hit"`
-	InconclusiveTags map[string]int64 `json:"inconclusive_tags,omitempty"`
+	Paths            int64             `json:"paths_completed"`
+	Aborts           map[string]int64  `json:"aborts"`
+	AbortSamples     map[string]string `json:"abort_samples"`
+	Forks            int64             `json:"branch_decisions"`
+	SolverChecks     int64             `json:"solver_checks"`
+	Obligations      int64             `json:"obligations"`
+	Discharged       int64             `json:"discharged"`
+	Inconclusive     int64             `json:"inconclusive"`
+	Steps            int64             `json:"ssa_instructions"`
+	Reach            map[string]int64  `json:"reach"`
+	PortfolioWins    map[string]int64  `json:"portfolio_wins"`
+	TimedOut         bool              `json:"timed_out"`
+	KnownHits        map[string]int64  `json:"known_findings_hit"`
+	InconclusiveTags map[string]int64  `json:"inconclusive_tags,omitempty"`
 }
 
 type ExploreConfig struct {
